@@ -468,8 +468,10 @@ theorem replaceRange_direct_is_replace (S : Schema) (doc : Node) (f t : Nat) (sl
     token added in front (`[f', f)`) is an open token, every token added behind (`[t, t')`) is a close
     token — no text, no leaf; and `slice'` is either the empty slice (when the requested slice has
     size 0: the `delete_range` path) or has exactly the requested content text (`close_fragment` only
-    inserts filler nodes: no text invented or dropped), the requested open end, and an open start no
-    deeper than the requested one -/
+    inserts filler nodes: no text invented or dropped), the requested open end, an open start no
+    deeper than the requested one, and is well-formed if the requested slice is (`close_fragment`
+    puts no filler in front of a node that stays open at the start nor behind one that stays open at
+    the end: `closeFragment_keeps_start_spine`, `closeFragment_keeps_end_spine`) -/
 theorem replaceRange_extends_structurally (S : Schema) (doc : Node) (f t : Nat) (sl : Slice)
     (cs : List (Nat × Nat × Slice)) (h : replaceRangeCalls S doc f t sl = some cs) :
     ∀ c ∈ cs, c.1 ≤ f ∧ t ≤ c.2.1 ∧ c.2.1 ≤ fsize doc.kids ∧
@@ -477,7 +479,7 @@ theorem replaceRange_extends_structurally (S : Schema) (doc : Node) (f t : Nat) 
       (∀ i, t ≤ i → i < c.2.1 → (ftoks doc.kids)[i]? = some Tok.cl) ∧
       ((sl.size = 0 ∧ c.2.2 = Slice.empty) ∨
        (ftext c.2.2.content = ftext sl.content ∧ c.2.2.openStart ≤ sl.openStart ∧
-         c.2.2.openEnd = sl.openEnd)) := by
+         c.2.2.openEnd = sl.openEnd ∧ (sl.wf = true → c.2.2.wf = true))) := by
   obtain ⟨plan, hp, rfl⟩ := Option.map_eq_some_iff.mp h
   unfold replaceRangePlan at hp
   split at hp
@@ -504,11 +506,11 @@ theorem replaceRange_extends_structurally (S : Schema) (doc : Node) (f t : Nat) 
         simp only [RRPlan.toCalls, List.mem_singleton] at hc
         subst hc
         exact ⟨Nat.le_refl _, Nat.le_refl _, Rt.le, fun i h1 h2 => by omega,
-          fun i h1 h2 => by simp only at h2; omega, .inr ⟨rfl, Nat.le_refl _, rfl⟩⟩
+          fun i h1 h2 => by simp only at h2; omega, .inr ⟨rfl, Nat.le_refl _, rfl, id⟩⟩
       · intro c hc
-        obtain ⟨hw, htx, hos, hoe⟩ := replaceRangeR_calls S Rf Rt sl plan hp c hc
+        obtain ⟨hw, htx, hos, hoe, hwf'⟩ := replaceRangeR_calls S Rf Rt sl plan hp c hc
         obtain ⟨h1, h2, h3, h4, h5⟩ := hw.structural S hf ht
-        exact ⟨h1, h2, h3, h4, h5, .inr ⟨htx, hos, hoe⟩⟩
+        exact ⟨h1, h2, h3, h4, h5, .inr ⟨htx, hos, hoe, hwf'⟩⟩
     · simp at hp
 
 /-- … in the vocabulary of the monitor: the two windows by which a request's range grew are
@@ -525,14 +527,29 @@ theorem replaceRange_structuralOnly (S : Schema) (doc : Node) (f t : Nat) (sl : 
   · obtain ⟨ty, a, m, e⟩ := ho i hi1 hi2
     rw [e] at htk; cases htk; rfl
   · rw [hcl i hi1 hi2] at htk; cases htk; rfl
-  · rcases htx with ⟨_, he⟩ | ⟨he, _, _⟩
+  · rcases htx with ⟨_, he⟩ | ⟨he, _, _, _⟩
     · rw [he]; simp [Slice.empty]
     · rw [he, sliceToks'_text_wf sl hwf]
       exact List.Sublist.refl _
 
+/-- **`replace_range` asks for exactly the requested text**: every request's slice is well-formed
+    and offers the same text units, in the same order, as the requested slice -/
+theorem replaceRange_call_text (S : Schema) (doc : Node) (f t : Nat) (sl : Slice)
+    (cs : List (Nat × Nat × Slice)) (hwf : sl.wf = true) (h : replaceRangeCalls S doc f t sl = some cs) :
+    ∀ c ∈ cs, c.2.2.wf = true ∧ textUnits (sliceToks' c.2.2) = textUnits (sliceToks' sl) := by
+  intro c hc
+  obtain ⟨_, _, _, _, _, htx⟩ := replaceRange_extends_structurally S doc f t sl cs h c hc
+  rcases htx with ⟨hsz, he⟩ | ⟨he, _, _, hw⟩
+  · rw [he]
+    refine ⟨by decide, ?_⟩
+    have : fsize sl.content - sl.openStart - sl.openEnd = 0 := by
+      simp only [Slice.size] at hsz; omega
+    simp [sliceToks', this, Slice.empty]
+  · exact ⟨hw hwf, by rw [sliceToks'_text_wf _ (hw hwf), sliceToks'_text_wf sl hwf, he]⟩
+
 /-- the text half of `respects` without a well-formedness hypothesis on the slice handed to
-    `replace_step` (a closed slice keeps the requested `open_end` although fillers may have been
-    appended): the emitted step's slice carries only text of the *content* of that slice, in order -/
+    `replace_step`: the emitted step's slice carries only text of the *content* of that slice, in
+    order (for a well-formed slice this is `fit_text`) -/
 theorem fit_text_content (S : Schema) (doc : Node) (f t : Nat) (sl : Slice) (st : Step)
     (h : replaceStep S doc f t sl = .ok (some st)) :
     ∃ sl', st.sliceOf = some sl' ∧ (textUnits (sliceToks' sl')).Sublist (ftext sl.content) := by
